@@ -213,7 +213,19 @@ func HFaultJsight() {
 	rest := vC03Base[len("JSIGHT 0.3\n"):]
 	var root, msg string
 	wantLine := 1
-	switch vInt("variant", 0, 3) {
+	switch vInt("variant", 0, 8) {
+	case 4: // missing, every other directive inside a MACRO definition
+		root, msg = "MACRO @m\n(\n  GET /a\n    200 any\n)\n", jerr.DirectiveJSIGHTShouldBeTheFirst
+	case 5: // missing: a file of comments
+		root, msg = "# nothing\n### here\n###\n", jerr.DirectiveJSIGHTShouldBeTheFirst
+	case 6: // missing: an empty file
+		root, msg = "", jerr.DirectiveJSIGHTShouldBeTheFirst
+	case 7: // repeated
+		root, msg, wantLine = "JSIGHT 0.3\nJSIGHT 0.3\n"+rest, "JSIGHT", 2
+	case 8: // a version that only starts like the supported one (suffix byte symbolic)
+		d := vByte("d")
+		vAssume(d > ' ' && d < 0x7f && d != '/' && d != '#' && d != '"')
+		root, msg = "JSIGHT 0.3"+string([]byte{d})+"\n"+rest, jerr.UnsupportedVersion
 	case 0: // missing
 		root, msg = rest, jerr.DirectiveJSIGHTShouldBeTheFirst
 	case 1: // not first
